@@ -31,3 +31,16 @@ Proof. exact start_refused_keeps_state. Qed.
 Print Assumptions C09_signal_rule.
 Print Assumptions C09_only_signalled_leader_starts.
 Print Assumptions C09_other_start_refused_unchanged.
+
+(** the executable trace oracle (with its registration memory) accepts every trace of the model, for
+    single-request histories in which every replica registers with one fixed (revision, rebuilding)
+    pair and revision counters are not negative ([fixed_assign]), [n] observed replicas, every address
+    that is added or started below [n] *)
+From Jiva Require Import Ctl.Corr Ctl.Oracles Ctl.OracleProofs2.
+
+Theorem C09_oracle_accepts_model_traces : forall es rf0 n w0, (1 <= rf0)%nat -> forallb ev_wf es = true ->
+  forallb (ev_addrs_lt n) es = true -> fixed_assign [] es = true ->
+  walk_g (fun g => lift (c09_step rf0 g) nopair) 0 [] (obs0 rf0 n w0) (map One es) (trace n (init rf0 w0) (map One es)) = None.
+Proof. exact c09_oracle_model. Qed.
+
+Print Assumptions C09_oracle_accepts_model_traces.
